@@ -449,9 +449,11 @@ PROPS["C18"] = pbt(
           "alone (digest per operation), then all run concurrently behind a barrier in a ThreadSanitizer build. "
           "Oracle: per-thread digests equal the serial ones; ThreadSanitizer reports nothing (the two last-error-"
           "location globals suppressed by name). Excluded by the property: econf_set_conf_dirs, the security setters, "
-          "out-of-range econf_errString. evaluations = operations; non-trivial = execution intervals of >=2 threads "
+          "out-of-range econf_errString. Plus storms (--mode storm T n): T threads x n rounds of write / layered "
+          "read / single read / directory read on private trees with a permission requirement in force, every result "
+          "(file modes included) compared with the single-threaded one. evaluations = operations; non-trivial = execution intervals of >=2 threads "
           "overlapped and the programs both read and write; distinct = hash of thread count + operation kinds"),
-    technique="generated thread programs under ThreadSanitizer (happens-before race detection) + serial-vs-concurrent differential; schedules are sampled, not owned; rapidcheck",
+    technique="generated thread programs under ThreadSanitizer (happens-before race detection) + serial-vs-concurrent differential + hot-loop storms; schedules are sampled, not owned; failures confirmed by 2 failing replays out of 8; rapidcheck",
     level_text=("exploration with sampled schedules: ThreadSanitizer flags any two unsynchronised conflicting accesses "
                 "that occur in one run regardless of their actual interleaving, which is what matters for a library "
                 "without locks; result-changing interleavings without a data race would be found only by luck. {q} "
